@@ -1057,6 +1057,16 @@ find_entry_node (GIrTypelibBuild   *build,
   if (n_names > 2)
     g_error ("Too many name parts");
 
+  /* "ThisNamespace.Name" (e.g. the target of a resolved alias) is the local
+   * entry Name, not a cross reference */
+  if (n_names == 2 && strcmp (names[0], module->name) == 0)
+    {
+      g_free (names[0]);
+      names[0] = names[1];
+      names[1] = NULL;
+      n_names = 1;
+    }
+
   for (l = module->entries, i = 1; l; l = l->next, i++)
     {
       GIrNode *node = (GIrNode *)l->data;
